@@ -504,6 +504,13 @@ Error String::_op_vformat(ModifyOp op, const char* fmt, va_list ap) noexcept {
       _set_size(start_at + output_size);
       return Error::kOk;
     }
+
+    // The in-place attempt was truncated - it has overwritten the null terminator (and the content in assign
+    // case), so make the string valid again as the code below can still fail.
+    if (op == ModifyOp::kAssign) {
+      _set_size(0);
+    }
+    data()[start_at] = '\0';
   }
   else {
     fmt_result = vsnprintf(buf, ASMJIT_ARRAY_SIZE(buf), fmt, ap);
